@@ -75,6 +75,9 @@ func newSWorld(cfg model.Config, seed []model.Write, watch ...string) *sworld {
 		k := sw.w.M.Col(col)
 		sw.w.C.CreateTrigger("watch:"+col, col, func(r column.Reader) {
 			e := applyEvent{thread: vsched.Self(), off: r.Index(), del: r.IsDelete()}
+			if e.thread < 0 {
+				return // set-up, outside the exploration
+			}
 			if !e.del {
 				switch {
 				case k.IsBool:
@@ -169,6 +172,10 @@ func (sw *sworld) orderOf(col string, off uint32) string {
 	var parts []string
 	for _, e := range sw.applied[col] {
 		if e.off == off {
+			if e.thread < 0 || e.thread >= len(sw.threads) {
+				parts = append(parts, fmt.Sprintf("thread#%d", e.thread))
+				continue
+			}
 			parts = append(parts, sw.threads[e.thread].name)
 		}
 	}
